@@ -89,7 +89,8 @@ def run(ctx):
                 continue
             ev = SizeEval(model, hooks_for(r))
             try:
-                res = ev.run(fi, [Unknown("cell id"), opts], {})
+                # the id of a cell that is not the world cell (the statement is about cells with a boundary): a positive integer
+                res = ev.run(fi, [IntV(Poly.sym("cell_id"), 1), opts], {})
             except RecursionError:
                 res = Unknown("recursion")
             n_cfg += 1
@@ -113,8 +114,11 @@ def run(ctx):
             if closed:
                 good = len(apps) == 1 and apps[0].replace(" ", "").endswith("[0])") and "[in loop]" not in apps[0]
                 if got == want:
-                    ctx.ob("C12.4", f"{tag}: ring closed by repeating its first vertex", core.DISCHARGED if good else core.VIOLATED, where,
-                           f"closing statements: {apps}")
+                    # an append of something other than element 0 is a definite defect; a ring of the right length that is closed by
+                    # another construct (slices, concatenation, a deque) is outside the idiom this rule reads: undecided
+                    st_ = core.DISCHARGED if good else (core.VIOLATED if apps else core.UNDECIDED)
+                    ctx.ob("C12.4", f"{tag}: ring closed by repeating its first vertex", st_, where,
+                           f"closing statements: {apps}" if apps else "no `append(ring[0])`: the closing vertex comes from a construct this rule does not read")
             else:
                 if apps:
                     ctx.bad("C12.4", f"{tag}: open ring gets a closing vertex", where, f"{apps}")
